@@ -621,7 +621,7 @@ func b2i(b bool) int {
 
 func init() {
 	Register(&Monitor{ID: "C20", Run: func(c *Ctx) {
-		c.Rule = "the ion-go binary built from /repo/cmd/ion-go run as a subprocess on generated documents (text and binary renderings from the reference producers: typed nulls of every type, annotations, field names, nested containers, big ints, every scalar kind; plus directed documents: every integer within 2 of ±2^{7,8,15,16,31,32,62,63,64,65,80,127,128}, float/decimal edges, timestamps of every precision, every typed null, values resembling system values) x output formats text/pretty/binary/events/none x {file argument, stdin} x {-o file, stdout}, with -e error file. Oracles: no panic/fatal trace, exit 0; text/pretty/binary output decodes (independent decoder) to the input model; events output passes an event-stream automaton ($ion_event_stream first, one well-formed event per scalar / container start / container end, depths, balanced and typed START/END, value_text re-parsing to the scalar, field_name exactly for struct children, annotations, single final STREAM_END) and rebuilds the input model; for invalid inputs (C07 catalogue) at least one READ/WRITE/STATE entry in the error report. Non-trivial: the document has a container, a typed null or an annotation; distinct by (document, format, input mode)."
+		c.Rule = "the ion-go binary built from /repo/cmd/ion-go run as a subprocess on generated documents (text and binary renderings from the reference producers: typed nulls of every type, annotations, field names, nested containers, big ints, every scalar kind; plus directed documents: every integer within 2 of ±2^{7,8,15,16,31,32,62,63,64,65,80,127,128}, float/decimal edges, timestamps of every precision, every typed null, values resembling system values) x output formats text/pretty/binary/events/none x {file argument, stdin} x {-o file, stdout}, with -e error file; standard input as pipe, regular file, connected socket and /dev/null; two input files with tables of their own; a quarter of the runs with -o and -e files that already hold a longer, older result; 100 input files in one run under an open-file limit of 32; 70000 top-level values; scalars of 32 to 70 KB. Oracles: no panic/fatal trace, exit 0; text/pretty/binary output decodes (independent decoder) to the input model; events output passes an event-stream automaton ($ion_event_stream first, one well-formed event per scalar / container start / container end, depths, balanced and typed START/END, value_text re-parsing to the scalar, field_name exactly for struct children, annotations, single final STREAM_END) and rebuilds the input model; for invalid inputs (C07 catalogue) at least one READ/WRITE/STATE entry in the error report. Non-trivial: the document has a container, a typed null or an annotation; distinct by (document, format, input mode)."
 		runC20(c)
 	}, Replay: func(c *Ctx, v *Violation) string {
 		var k CLICase
